@@ -220,7 +220,7 @@ static std::string gen(const std::string &prop, uint64_t base, uint64_t idx, boo
             uint32_t bid = (uint32_t)(r.chance(0.4) ? (uint32_t[]){0, 1, 0x7ff, 0x800, 0x1fffffff, 0x20000000, 0xffffffffu}[r.below(7)] : r.next());
             // (a data-less frame is also built with a null payload pointer)
             line(strf("op b=%d build kind=%s id=0x%x len=%u variant=%d dseed=0x%llx%s", b.id, kinds[r.below(4)], bid, len, (int)(r.chance(0.2) ? -1 - (int)r.below(2) : r.chance(0.85) ? r.below(2) : (unsigned[]){2, 3, 4, 8, 16, 255}[r.below(6)]), (unsigned long long)r.next(),
-                      (len == 0 && r.coin()) ? " nullp=1" : r.chance(0.3) ? " fixed=1" : r.chance(0.15) ? " inplace=1" : r.chance(0.08) ? strf(" far=%d", (int)r.range(1, 3)).c_str() : "") + strf(" inc=%d", inc_variant));
+                      (len == 0 && r.coin()) ? " nullp=1" : r.chance(0.3) ? " fixed=1" : r.chance(0.15) ? " inplace=1" : r.chance(idx % 5 == 2 ? 0.35 : 0.02) ? strf(" far=%d", (int)r.range(1, 3)).c_str() : "") + strf(" inc=%d", inc_variant));
             continue;
         }
         unsigned k = (unsigned)r.below(100);
@@ -768,7 +768,8 @@ static void exec(const std::string &text, bool verbose) {
             int bk = (kind == "setpayload" && !brief) ? 0 : kind == "finalize" ? 1 : 2;
             uint8_t *srcp = (len == 0 && kv.u64("nullp", 0)) ? nullptr : src.data();
             bool fixed = kv.u64("fixed", 0) && srcp;
-            // the payload lies exactly 4 GiB, 8 GiB or -4 GiB away from where it goes (pointer differences that are kept in 32 bits read 0)
+            // the payload lies exactly 4 GiB, 8 GiB or -4 GiB away from where it goes (pointer differences that are kept in 32 bits read 0);
+            // possible where the neighbourhood is free, i.e. mostly in the runs that keep their buffers in pages of their own
             void *far_map = nullptr;
             size_t far_len = 0;
             if (kv.u64("far", 0) && srcp && len > 0 && bk != 1) {
@@ -778,6 +779,7 @@ static void exec(const std::string &text, bool verbose) {
                 far_len = ((want + len + 4095) & ~(uintptr_t)4095) - pg;
                 void *m = mmap((void *)pg, far_len, PROT_READ | PROT_WRITE, MAP_PRIVATE | MAP_ANONYMOUS | MAP_FIXED_NOREPLACE, -1, 0);
                 if (m == (void *)pg) { far_map = m; memcpy((void *)want, src.data(), len); srcp = (uint8_t *)want; per_entry["entry.build.payload_a_multiple_of_4GiB_away"]++; }
+                else { if (m != MAP_FAILED) munmap(m, far_len); per_entry[strf("entry.build.far_placement_not_possible_errno_%d", m == MAP_FAILED ? errno : 0)]++; }
             }
             // zero-copy use: the application has put the frame data where the message keeps it and passes that very address
             bool inplace = kv.u64("inplace", 0) && srcp && !fixed && len > 0 && bk != 1;
